@@ -1,6 +1,6 @@
 From Coq Require Extraction.
 From Coq Require Import ExtrOcamlBasic.
-From AIT Require Import Base.Vio C19.Model C19.Spec C19.ModelR.
+From AIT Require Import Base.Vio C19.Model C19.Spec C19.ModelR C19.SpecR.
 Extraction "model.ml" vio_kit mcts_op pomcp_op rl_orig rl_fixed node0 counts_okb steps_okb geom disc_sum
   nN bel acts aN aV kids
-  pomcp_coh_op r_op rnode0 rN rV rAV rbest rtrack rmaxS rkm racts raN raV rkids.
+  pomcp_coh_op r_coh_op r_op rnode0 rN rV rAV rbest rtrack rmaxS rkm racts raN raV rkids.
